@@ -1,5 +1,5 @@
 (* C13 correspondence: cases as printed by harness/c13. *)
-From Verif Require Export Lib.Base Lib.RegexM Model.C13_Accounts.
+From Verif Require Export Lib.Base Lib.RegexM Model.C13_Accounts Model.C13_During.
 From Coq Require Export String Ascii.
 Open Scope N_scope.
 
@@ -38,7 +38,10 @@ Record case := {
      Go's regexp/syntax (None: does not compile; Some l: its top-level alternatives) *)
   c_parse : list (string * option (list re));
   c_ops : list op;
-  c_outs : list out                   (* what the implementation did, operation by operation *)
+  c_outs : list out;                  (* what the implementation did, operation by operation *)
+  (* queries issued from inside a refresh (by the signer / store / node fakes, while the manager
+     waits for them), each with what it was answered *)
+  c_during : list (dquery * dobs)
 }.
 
 Definition lookup_parse (tbl : list (string * option (list re))) (s : string) : option (list re) :=
@@ -57,8 +60,20 @@ Definition out_eqb (a b : out) : bool :=
   | _, _ => false
   end.
 
-Definition agree (c : case) : bool :=
+Definition agree_main (c : case) : bool :=
   list_eqb out_eqb (run (lookup_parse (c_parse c)) (c_cfg c) (c_ops c)) (c_outs c).
+
+(* a query that landed in a refresh was answered as the model allows at that point *)
+Definition pairs_eqb := list_eqb pair_eqb.
+Definition during_agree (c : case) (p : dquery * dobs) : bool :=
+  let allowed := during_answers (lookup_parse (c_parse c)) (c_cfg c) (c_ops c) (fst p) in
+  match snd p with
+  | DNone => isnil (allowed false)
+  | DAnswer blocked l => memb pairs_eqb l (allowed blocked)
+  end.
+
+Definition agree (c : case) : bool :=
+  agree_main c && forallb (during_agree c) (c_during c).
 
 (* ---------------------------------------------------------------------------------------------
    The property on the OBSERVED outputs (the model is not consulted; only the string helpers, the
@@ -190,6 +205,43 @@ Section Spec.
     | _, _ => false
     end.
 
+  (* Queries landing in a refresh.  The (known accounts, validator store) pairs the
+     specification tracks: before each operation, and after the last one. *)
+  Fixpoint spec_states (known : list N) (vals : list val) (ops : list op) (outs : list out)
+    : list (list N * list val) :=
+    (known, vals) ::
+    match ops, outs with
+    | Refresh offered vo :: ops', OProbe l :: outs' =>
+        let vals' := match c_mgr cfg with
+                     | Dirk => if isnil l then vals else vals_after vals l vo
+                     | Wallet => vals_after vals l vo
+                     end in
+        spec_states l vals' ops' outs'
+    | Query _ _ _ :: ops', OQuery _ :: outs' => spec_states known vals ops' outs'
+    | _, _ => []
+    end.
+
+  (* a query that lands in a refresh is answered from the old or the new account store and the
+     old or the new validator store; one that returns only after the refresh, from the new ones *)
+  Definition during_ok (ops : list op) (sts : list (list N * list val)) (p : dquery * dobs) : bool :=
+    let d := fst p in
+    match snd p with
+    | DNone => true
+    | DAnswer blocked obs =>
+        match nth_error ops (dq_at d), nth_error sts (dq_at d), nth_error sts (S (dq_at d)) with
+        | Some (Refresh _ _), Some (k0, v0), Some (k1, v1) =>
+            let ok k v := query_ok k v (dq_sync d) (dq_epoch d) (dq_idx d) obs in
+            ok k1 v1 || (negb blocked && (ok k0 v0 || ok k1 v0 || ok k0 v1))
+        | _, _, _ => false
+        end
+    end.
+
+  Definition during_run (ops : list op) (outs : list out) (ds : list (dquery * dobs)) : bool :=
+    match outs with
+    | OCtorErr :: _ => forallb (fun p => match snd p with DNone => true | _ => false end) ds
+    | _ => forallb (during_ok ops (spec_states [] [] ops outs)) ds
+    end.
+
   Definition spec_run (ops : list op) (outs : list out) : bool :=
     match outs with
     | OCtorErr :: rest =>
@@ -204,8 +256,11 @@ Section Spec.
     end.
 End Spec.
 
-Definition P_b (c : case) : bool :=
+Definition P_b_main (c : case) : bool :=
   spec_run (lookup_parse (c_parse c)) (c_cfg c) (c_ops c) (c_outs c).
+
+Definition P_b (c : case) : bool :=
+  P_b_main c && during_run (c_cfg c) (c_ops c) (c_outs c) (c_during c).
 
 Definition mismatches (cs : list case) : list N := failing_ids c_id agree cs.
 Definition violations (cs : list case) : list N := failing_ids c_id P_b cs.
